@@ -297,6 +297,7 @@ def run(ctx):
     functional_saenger(ctx, res)
     for (tag, rs, m) in inputs[:3] + inputs[-2:]:
         res.sample({"family": tag, "model": m if m != "multi" else "two models", "residues": len(rs)})
+    __import__("corr.fn_common", fromlist=["run_fn"]).run_fn(ctx, res, "C11")  # regenerated functions vs the real ones (tools/py2lean.py)
     return res
 
 
